@@ -650,14 +650,20 @@ def w19(ctx, rid):
                 continue
             for a in c.args:
                 l = op_local(a)
-                if l is None or f.locals[l].get('h') != 'closure':
-                    continue
-                h = prog.fns.get(f.locals[l]['a'][0])
-                if h is None or len(h.locals) < 3 or 'Header' not in h.locals[2]['s']:
+                h, hp = None, 2
+                if l is not None and f.locals[l].get('h') == 'closure':
+                    h = prog.fns.get(f.locals[l]['a'][0])
+                elif l is not None and f.locals[l].get('h') == 'fndef' and f.locals[l].get('a'):
+                    h, hp = prog.fns.get(f.locals[l]['a'][0]), 1     # a named function handed over instead of a closure
+                else:
+                    k = core.op_const(a)
+                    if k and 'fn' in k:
+                        h, hp = prog.fns.get(k['fn'].get('res') or k['fn'].get('path')), 1
+                if h is None or len(h.locals) <= hp or 'Header' not in h.locals[hp]['s']:
                     continue    # the record preprocessor
                 n += 1
                 key = 'output-header-from-input-header|%s' % prog.fns[f.id].root
-                carry = core.flows_forward(h, 2, transparent=lambda x: tuple(range(len(x.args))))
+                carry = core.flows_forward(h, hp, transparent=lambda x: tuple(range(len(x.args))))
                 if 0 in carry:
                     ctx.ok(rid, key, h.where(), 'the result is built from the header that was read')
                 else:
